@@ -167,6 +167,8 @@ def run_lines(ctx, symbols, unix, case, split_rng=None):
         data = line + b'\r\n'
         if split_rng is not None and len(data) > 1:
             cuts = sorted(set(split_rng.randint(1, len(data) - 1) for _ in range(split_rng.randint(0, 2))))
+            if split_rng.random() < 0.35:
+                cuts = sorted(set(cuts + [len(data) - 1]))          # between the CR and the LF
             if split_rng.random() < 0.15:
                 cuts = list(range(1, len(data)))
             pieces = simnet.chunks_of(data, cuts)
@@ -419,7 +421,7 @@ def run(ctx):
                     hist = run_lines(ctx, seq, unix, {'kind': 'seq', 'symbols': list(seq), 'unix': unix})
                     if len(hist) >= 2:
                         ctx.distinct('nontrivial_cases', (seq, unix))
-                if n % 11 == 0:
+                if n % 4 == 0:
                     r = random.Random(n)
                     run_lines(ctx, seq, bool(n % 2), {'kind': 'seq', 'symbols': list(seq), 'unix': bool(n % 2),
                                                       'split': n}, split_rng=r)
